@@ -1087,3 +1087,407 @@ Proof.
       by apply stack_rel_set_next.
   - rewrite H. split; [done|]. by split.
 Qed.
+
+(* ------------------------------------------------------------------ *)
+(* Finalise *)
+Arguments new_object : simpl never.
+
+Lemma fin_rel ru j j' a o x (t : bool) :
+  obj_rel j a o x → j_db j' = j_db j →
+  (a ∈ j_destruct j' ↔ a ∈ j_destruct j ∨ (t = true ∧ fin_del ru o = true)) →
+  (t = false → o_dirty o = ∅ ∧ o_sd o = false ∧ o_new o = false) →
+  (rAms ru = true → o_sd o = true → a_bal (o_data o) ≠ 0 → origin_blank j a o = true) →
+  (o_origin o = None → a ∈ j_destruct j ∨ j_db j !! a = None) →
+  match (if t then fin_obj ru o else Some o), fin_acct ru t x with
+  | Some o', Some x' => obj_rel j' a o' x'
+  | None, None => True
+  | _, _ => False
+  end.
+Proof.
+  intros (D1 & D2 & D3 & D4 & D5) Hdb Hds Hunt Hams Horg.
+  assert (Hempty : obj_empty o = acct_empty (ra x)) by (unfold obj_empty; by rewrite D1).
+  (* the account survives: committed reads fall back to the same place *)
+  assert (Hfb : ∀ o', o_pending o' = o_dirty o ∪ o_pending o → (t = false ∨ fin_del ru o = false) →
+                ∀ k, committed j' a o' k = get_state j a o k).
+  { intros o' Hp Hsurv k. unfold committed, get_state, committed. rewrite Hp lookup_union.
+    destruct (o_dirty o !! k) as [d|] eqn:Ed; simpl.
+    - by destruct (o_pending o !! k).
+    - destruct (o_pending o !! k) as [p|] eqn:Ep; simpl; [done|].
+      unfold db_stor. rewrite Hdb.
+      assert (Hiff : a ∈ j_destruct j' ↔ a ∈ j_destruct j).
+      { rewrite Hds. split; [|tauto]. intros [H|[H1 H2]]; [done|]. destruct Hsurv; congruence. }
+      by rewrite (bool_decide_ext _ _ Hiff). }
+  assert (Hfin : (t = false ∨ fin_del ru o = false) →
+     obj_rel j' a (if t then obj_finalise o else o) (x <| r_cstor := r_stor x |> <| r_new := false |>)).
+  { intros Hsurv. destruct t.
+    - split_and!; try done; simpl; intros k; unfold get_state; simpl;
+        rewrite ?lookup_empty (Hfb (obj_finalise o)) //; apply D2.
+    - destruct (Hunt eq_refl) as (U1 & U2 & U3).
+      assert (Hp : o_pending o = o_dirty o ∪ o_pending o) by (rewrite U1; by rewrite left_id_L).
+      split_and!; try done; simpl; try (by rewrite -D5);
+        intros k; unfold get_state; rewrite ?U1 ?lookup_empty (Hfb o) //; apply D2. }
+  unfold fin_acct. rewrite -D4 -Hempty.
+  destruct t.
+  - (* touched *)
+    unfold fin_obj. unfold fin_del, fin_obj in Hds, Hfin.
+    destruct (rAms ru) eqn:Ea; simpl in *.
+    + destruct (o_sd o) eqn:Es.
+      * rewrite -D1. destruct (a_bal (o_data o) =? 0) eqn:Eb; simpl in *; [done|].
+        apply N.eqb_neq in Eb. specialize (Hams eq_refl eq_refl Eb).
+        unfold origin_blank in Hams.
+        assert (Hz : ∀ k, committed j' a (new_object (o_origin o) <| o_data ::= λ d, d <| a_bal := a_bal (o_data o) |> |>) k = 0).
+        { intros k. unfold committed, new_object. simpl. rewrite lookup_empty.
+          case_bool_decide as Hd; [done|]. unfold db_stor. rewrite Hdb.
+          destruct (j_db j !! a) as [d|] eqn:Edb; [|done].
+          destruct (o_origin o) eqn:Eo.
+          - apply andb_true_iff in Hams as [_ Hams]. apply bool_decide_eq_true in Hams. rewrite Hams.
+            unfold sget. by rewrite lookup_empty.
+          - destruct (Horg eq_refl) as [H|H]; [|congruence]. exfalso. apply Hd. apply Hds. by left. }
+        split_and!; try done;
+          first [ (intros k; unfold get_state; rewrite ?Hz; unfold new_object; simpl; rewrite ?lookup_empty;
+                   unfold sget; by rewrite ?lookup_empty)
+                | (unfold new_object; simpl; rs; destruct (o_origin o) as [y|] eqn:Eo; simpl; [|done];
+                   apply andb_true_iff in Hams as [Hams _]; apply andb_true_iff in Hams as [H1 H2];
+                   apply N.eqb_eq in H1, H2; destruct y; simpl in *; by subst) ].
+      * destruct (r158 ru && obj_empty o) eqn:E1; simpl.
+        -- rewrite andb_true_r. rewrite E1. done.
+        -- rewrite andb_true_r E1. apply (Hfin (or_intror eq_refl)).
+    + destruct (o_sd o) eqn:Es; simpl in *; [done|].
+      rewrite andb_true_r. destruct (r158 ru && obj_empty o) eqn:E1; simpl; [done|].
+      apply (Hfin (or_intror eq_refl)).
+  - destruct (Hunt eq_refl) as (U1 & U2 & U3). rewrite U2. rewrite andb_false_r. simpl.
+    apply (Hfin (or_introl eq_refl)).
+Qed.
+
+Lemma step_r_finalise r ru :
+  step_r r (OFinalise ru) =
+  (r <| r_cur := (r_cur r) <| accts := map_imap (λ a x, fin_acct ru (bool_decide (a ∈ rtouched r)) x) (accts (r_cur r)) |>
+                           <| touched := ∅ |> <| refund := 0 |> |>
+     <| r_stack := [] |> <| r_next := 0 |> <| r_sticky := false |>, RNone).
+Proof. done. Qed.
+
+Lemma step_finalise j r ru : Inv j r → op_ok j (OFinalise ru) = true → step_ok j r (OFinalise ru).
+Proof.
+  intros [W R Hth Hti Hn Hs] Hok. unfold step_ok. rewrite step_r_finalise.
+  simpl step_j. simpl in Hok. apply bool_decide_eq_true in Hok.
+  set (dirty := λ a, bool_decide (a ∈ dom (j_muts j))).
+  set (j' := finalise ru j).
+  set (D := dom (filter (λ ao, Is_true (dirty ao.1 && fin_del ru ao.2)) (j_objs j))).
+  assert (P : j_objs j' = map_imap (λ a o, if dirty a then fin_obj ru o else Some o) (j_objs j) ∧
+              j_destruct j' = j_destruct j ∪ D ∧ j_muts j' = ∅ ∧ j_entries j' = [] ∧ j_revs j' = [] ∧
+              j_nextrev j' = 0 ∧ j_refund j' = 0 ∧ j_bad j' = j_bad j ∧ j_ala j' = j_ala j ∧ j_als j' = j_als j ∧
+              j_logs j' = j_logs j ∧ j_logsize j' = j_logsize j ∧ j_tstor j' = j_tstor j ∧ j_db j' = j_db j ∧
+              j_th j' = j_th j ∧ j_ti j' = j_ti j)
+    by (subst j' D dirty; unfold finalise, clear_internal; by destruct j).
+  destruct P as (P1&P2&P3&P4&P5&P6&P7&P8&P9&P10&P11&P12&P13&P14&P15&P16).
+  assert (HD : ∀ a, a ∈ D ↔ ∃ o, j_objs j !! a = Some o ∧ dirty a = true ∧ fin_del ru o = true).
+  { intros a. subst D. rewrite elem_of_dom. split.
+    - intros [o Ho]. apply map_filter_lookup_Some in Ho as [Ho Hp]. simpl in Hp.
+      apply Is_true_true, andb_true_iff in Hp. by exists o.
+    - intros (o & Ho & H1 & H2). exists o. apply map_filter_lookup_Some. split; [done|]. simpl.
+      apply Is_true_true. by rewrite H1 H2. }
+  assert (Hdt : ∀ a, dirty a = bool_decide (a ∈ rtouched r)).
+  { intros a. subst dirty. simpl. apply bool_decide_ext. rewrite (rc_touched _ _ _ R a). unfold rtouched.
+    destruct (r_sticky r); [rewrite elem_of_union elem_of_singleton; naive_solver|naive_solver]. }
+  (* per-account facts *)
+  assert (Hper : ∀ a o, j_objs j !! a = Some o →
+     (dirty a = false → o_dirty o = ∅ ∧ o_sd o = false ∧ o_new o = false) ∧
+     (rAms ru = true → o_sd o = true → a_bal (o_data o) ≠ 0 → origin_blank j a o = true) ∧
+     (a ∈ j_destruct j' ↔ a ∈ j_destruct j ∨ (dirty a = true ∧ fin_del ru o = true))).
+  { intros a o Ho. destruct (Hok a o Ho) as [G1 G2]. split_and!.
+    - intros Hd. subst dirty. simpl in Hd. apply bool_decide_eq_false in Hd. split_and!.
+      + destruct (decide (o_dirty o = ∅)) as [|Hne]; [done|]. exfalso. apply Hd. by eapply wf_dirtymut.
+      + destruct (o_sd o) eqn:E; [|done]. exfalso. apply Hd. by eapply wf_sdmut.
+      + destruct (o_new o) eqn:E; [|done]. exfalso. by apply Hd, G1.
+    - done.
+    - rewrite P2 elem_of_union HD. split; [intros [H|(o2 & Ho2 & H)]; [by left|right; by simplify_eq]|].
+      intros [H|H]; [by left|right; by exists o]. }
+  split; [done|]. split.
+  - (* wf *)
+    split.
+    + rewrite P8. apply W.
+    + intros a m. unfold mloc. by rewrite P3 lookup_empty.
+    + intros a idx. unfold al_loc. rewrite P9 P10. apply W.
+    + intros th. rewrite P11. apply W.
+    + intros s y. rewrite P13. apply W.
+    + intros a o' s d. rewrite P1 map_lookup_imap. destruct (j_objs j !! a) as [o|] eqn:Ho; simpl; [|done].
+      destruct (Hper a o Ho) as (U & _ & _).
+      destruct (dirty a) eqn:Ed.
+      * unfold fin_obj. repeat case_match; try done; intros [= <-]; simpl; by rewrite lookup_empty.
+      * intros [= <-]. destruct (U eq_refl) as (-> & _). by rewrite lookup_empty.
+    + intros a a' idx. rewrite P9. apply W.
+    + intros a o'. rewrite P1 P2 P14 map_lookup_imap. destruct (j_objs j !! a) as [o|] eqn:Ho; simpl; [|done].
+      intros Ho' Horg. assert (o_origin o = None).
+      { destruct (dirty a); [|by simplify_eq]. unfold fin_obj in Ho'. repeat case_match; simplify_eq; done. }
+      destruct (wf_origin _ W a o Ho H) as [Hd|Hd]; [left; set_solver|by right].
+    + intros a. rewrite P1 P2 P14 map_lookup_imap. destruct (j_objs j !! a) as [o|] eqn:Ho; simpl.
+      * destruct (dirty a) eqn:Ed; [|done]. intros Hf. left. apply elem_of_union. right. apply HD.
+        exists o. split_and!; try done. unfold fin_del. by rewrite Hf.
+      * intros _. destruct (wf_eager _ W a Ho) as [Hd|Hd]; [left; set_solver|by right].
+    + intros a o'. rewrite P1 map_lookup_imap. destruct (j_objs j !! a) as [o|] eqn:Ho; simpl; [|done].
+      destruct (Hper a o Ho) as (U & _ & _). intros Ho' Hne. exfalso. apply Hne.
+      destruct (dirty a) eqn:Ed.
+      * unfold fin_obj in Ho'. repeat case_match; simplify_eq; done.
+      * simplify_eq. by destruct (U eq_refl) as (-> & _).
+    + intros a o'. rewrite P1 map_lookup_imap. destruct (j_objs j !! a) as [o|] eqn:Ho; simpl; [|done].
+      destruct (Hper a o Ho) as (U & _ & _). intros Ho' Hsd. exfalso.
+      destruct (dirty a) eqn:Ed.
+      * unfold fin_obj in Ho'. repeat case_match; simplify_eq; unfold obj_finalise, new_object in *; rs; try congruence;
+          match goal with H : _ || _ = false |- _ => rewrite Hsd in H; done end.
+      * simplify_eq. destruct (U eq_refl) as (_ & Hx & _). congruence.
+  - (* Rc *)
+    replace (r_sticky _) with false by done.
+    match goal with |- Rc _ _ (r_cur ?rr) => replace (r_cur rr) with
+      ((r_cur r) <| accts := map_imap (λ a x, fin_acct ru (bool_decide (a ∈ rtouched r)) x) (accts (r_cur r)) |>
+                 <| touched := ∅ |> <| refund := 0 |>) by (by destruct r) end.
+    set (c := r_cur r) in *.
+    split.
+    + intros a. rewrite P1. replace (accts _) with (map_imap (λ a x, fin_acct ru (bool_decide (a ∈ rtouched r)) x) (accts c)) by (by destruct c).
+      rewrite !map_lookup_imap. pose proof (rc_objs _ _ _ R a) as H.
+      destruct (j_objs j !! a) as [o|] eqn:Ho, (accts c !! a) as [x|] eqn:Hx; try done. simpl.
+      destruct (Hper a o Ho) as (U1 & U2 & U3). rewrite -Hdt.
+      apply (fin_rel ru j j' a o x (dirty a)); try done. by eapply wf_origin.
+    + rewrite P13 (rc_tstor _ _ _ R). by destruct c.
+    + rewrite P7. by destruct c.
+    + intros a. rewrite P9 (rc_ala _ _ _ R). by destruct c.
+    + intros a s. rewrite -(rc_als _ _ _ R a s). unfold al_contains_slot. by rewrite P9 P10.
+    + intros th. rewrite P11 (rc_logs _ _ _ R). by destruct c.
+    + rewrite P12 (rc_logsize _ _ _ R). by destruct c.
+    + intros a. rewrite P3 dom_empty_L. replace (touched _) with (∅ : gset addr) by (by destruct c). set_solver.
+  - rewrite P15 Hth. by destruct r.
+  - rewrite P16 Hti. by destruct r.
+  - rewrite P6. by destruct r.
+  - rewrite P5. by destruct r.
+Qed.
+
+(* ------------------------------------------------------------------ *)
+(* SetTxContext + Prepare *)
+Definition alframe (j j' : jstate) : Prop :=
+  j_objs j' = j_objs j ∧ j_muts j' = j_muts j ∧ j_db j' = j_db j ∧ j_destruct j' = j_destruct j ∧
+  j_bad j' = j_bad j ∧ j_logs j' = j_logs j ∧ j_logsize j' = j_logsize j ∧ j_tstor j' = j_tstor j ∧
+  j_refund j' = j_refund j ∧ j_entries j' = j_entries j ∧ j_th j' = j_th j ∧ j_ti j' = j_ti j ∧
+  j_revs j' = j_revs j ∧ j_nextrev j' = j_nextrev j.
+
+Lemma alframe_refl j : alframe j j.
+Proof. by repeat split. Qed.
+Lemma alframe_trans j1 j2 j3 : alframe j1 j2 → alframe j2 j3 → alframe j1 j3.
+Proof. unfold alframe. intros H1 H2. destruct_and!. split_and!; congruence. Qed.
+
+Lemma add_address_frame a j : alframe j (al_add_address a j).1.
+Proof.
+  destruct (al_add_address_proj a j) as (P1&P2&P3&P4&P5&P6&P7&P8&P9&P10&P11&P12&P13&P14&P15&P16&P17).
+  by split_and!.
+Qed.
+Lemma add_slot_frame a k j A S : alwf j → alrel j A S → alframe j (al_add_slot a k j).1.1.
+Proof.
+  intros HW HR. destruct (al_add_slot_proj a k j) as (P4&P5&P6&P7&P9&P10&P11&P12&P13&P14&P15&P16&P17).
+  destruct (al_add_slot_spec a k j A S HW HR) as (_ & _ & HB & _). by split_and!.
+Qed.
+
+Lemma slots_fold a ks : ∀ j A S,
+  alwf j → alrel j A S → a ∈ A →
+  let j' := foldl (λ j k, (al_add_slot a k j).1.1) j ks in
+  let S' := foldl (λ (S : gset (addr * slot)) k, {[(a, k)]} ∪ S) S ks in
+  alwf j' ∧ alrel j' A S' ∧ alframe j j'.
+Proof.
+  induction ks as [|k ks IH]; intros j A S HW HR Ha; simpl; [split_and!; [done|done|apply alframe_refl]|].
+  destruct (al_add_slot_spec a k j A S HW HR) as (HW1 & HR1 & _).
+  replace ({[a]} ∪ A) with A in HR1 by set_solver.
+  destruct (IH _ _ _ HW1 HR1 Ha) as (H1 & H2 & H3). split_and!; [done|done|].
+  eapply alframe_trans; [by eapply add_slot_frame|done].
+Qed.
+
+Lemma entries_fold (l : list (addr * list slot)) : ∀ j A S,
+  alwf j → alrel j A S →
+  let j' := foldl (λ j e, foldl (λ j k, (al_add_slot e.1 k j).1.1) (al_add_address e.1 j).1 e.2) j l in
+  let AS' := foldl (λ (AS : gset addr * gset (addr * slot)) e,
+                     (({[e.1]} ∪ AS.1 : gset addr),
+                      foldl (λ (S : gset (addr * slot)) k, {[(e.1, k)]} ∪ S) AS.2 e.2)) (A, S) l in
+  alwf j' ∧ alrel j' AS'.1 AS'.2 ∧ alframe j j'.
+Proof.
+  induction l as [|[a ks] l IH]; intros j A S HW HR; simpl; [split_and!; [done|done|apply alframe_refl]|].
+  pose proof (al_add_address_wf a j HW) as HW1. pose proof (al_add_address_rel a j A S HR) as HR1.
+  destruct (slots_fold a ks _ _ _ HW1 HR1) as (HW2 & HR2 & HF2); [set_solver|].
+  destruct (IH _ _ _ HW2 HR2) as (H1 & H2 & H3). split_and!; [done|done|].
+  eapply alframe_trans; [|done]. eapply alframe_trans; [apply add_address_frame|done].
+Qed.
+
+Lemma prepare_spec ru sender coinbase dst l j :
+  let j' := prepare_al ru sender coinbase dst l j in
+  let AS := build_al ru sender coinbase dst l in
+  alwf j' ∧ alrel j' AS.1 AS.2 ∧ alframe j j'.
+Proof.
+  unfold prepare_al, build_al.
+  set (j0 := j <| j_ala := ∅ |> <| j_als := [] |>).
+  assert (HW0 : alwf j0).
+  { split; [intros a idx|intros a a' idx]; subst j0; destruct j; rj; simpl; by rewrite lookup_empty. }
+  assert (HR0 : alrel j0 ∅ ∅).
+  { split; [intros a|intros a k]; unfold al_contains_slot; subst j0; destruct j; rj; simpl; rewrite lookup_empty;
+      [split; [by intros [? ?]|set_solver]|set_solver]. }
+  assert (HF0 : alframe j j0) by (subst j0; by destruct j).
+  pose proof (al_add_address_wf sender j0 HW0) as HW1. pose proof (al_add_address_rel sender j0 _ _ HR0) as HR1.
+  pose proof (add_address_frame sender j0) as HF1.
+  set (j1 := (al_add_address sender j0).1) in *.
+  set (j2 := match dst with Some d => (al_add_address d j1).1 | None => j1 end).
+  set (A2 := match dst with Some d => {[d]} ∪ ({[sender]} ∪ ∅) | None => {[sender]} ∪ (∅ : gset addr) end).
+  assert (H2 : alwf j2 ∧ alrel j2 A2 ∅ ∧ alframe j1 j2).
+  { subst j2 A2. destruct dst as [d|]; [|split_and!; [done|done|apply alframe_refl]].
+    split_and!; [by apply al_add_address_wf|by apply al_add_address_rel|apply add_address_frame]. }
+  destruct H2 as (HW2 & HR2 & HF2).
+  destruct (entries_fold l j2 A2 ∅ HW2 HR2) as (HW3 & HR3 & HF3).
+  set (j3 := foldl _ j2 l) in *. set (AS3 := foldl _ (A2, ∅) l) in *.
+  assert (HF : alframe j j3).
+  { apply (alframe_trans j j2 j3); [|exact HF3]. apply (alframe_trans j j1 j2); [|exact HF2].
+    apply (alframe_trans j j0 j1); [exact HF0|exact HF1]. }
+  destruct (rShanghai ru); simpl.
+  - split_and!; [by apply al_add_address_wf|by apply al_add_address_rel|].
+    eapply alframe_trans; [done|apply add_address_frame].
+  - by split_and!.
+Qed.
+
+Lemma set_tstor_proj (j2 j' : jstate) :
+  j' = j2 <| j_tstor := ∅ |> →
+  j_objs j' = j_objs j2 ∧ j_muts j' = j_muts j2 ∧ j_db j' = j_db j2 ∧ j_destruct j' = j_destruct j2 ∧
+  j_bad j' = j_bad j2 ∧ j_logs j' = j_logs j2 ∧ j_logsize j' = j_logsize j2 ∧ j_tstor j' = ∅ ∧
+  j_refund j' = j_refund j2 ∧ j_entries j' = j_entries j2 ∧ j_th j' = j_th j2 ∧ j_ti j' = j_ti j2 ∧
+  j_revs j' = j_revs j2 ∧ j_nextrev j' = j_nextrev j2 ∧ j_ala j' = j_ala j2 ∧ j_als j' = j_als j2.
+Proof. intros ->. by destruct j2. Qed.
+
+Lemma step_txstart j r th ti ru sender coinbase dst l :
+  Inv j r → op_ok j (OTxStart th ti ru sender coinbase dst l) = true →
+  step_ok j r (OTxStart th ti ru sender coinbase dst l).
+Proof.
+  intros [W R Hth Hti Hn Hs] Hok. unfold step_ok. simpl in Hok.
+  apply bool_decide_eq_true in Hok as [He Hrv].
+  rewrite Hrv in Hs. destruct (r_stack r) as [|? ?] eqn:Est; [|done].
+  simpl step_j. simpl step_r.
+  set (j1 := j <| j_th := th |> <| j_ti := ti |>).
+  assert (F1 : alframe j j1 ∨ True) by (by right).
+  assert (P1 : j_objs j1 = j_objs j ∧ j_muts j1 = j_muts j ∧ j_db j1 = j_db j ∧ j_destruct j1 = j_destruct j ∧
+               j_bad j1 = j_bad j ∧ j_logs j1 = j_logs j ∧ j_logsize j1 = j_logsize j ∧ j_tstor j1 = j_tstor j ∧
+               j_refund j1 = j_refund j ∧ j_entries j1 = j_entries j ∧ j_th j1 = th ∧ j_ti j1 = ti ∧
+               j_revs j1 = j_revs j ∧ j_nextrev j1 = j_nextrev j ∧ j_ala j1 = j_ala j ∧ j_als j1 = j_als j)
+    by (subst j1; by destruct j).
+  destruct P1 as (A1&A2&A3&A4&A5&A6&A7&A8&A9&A10&A11&A12&A13&A14&A15&A16).
+  set (c := r_cur r) in *.
+  set (j2 := if r2929 ru then prepare_al ru sender coinbase dst l j1 else j1).
+  set (c1 := if r2929 ru then let '(aa, ss) := build_al ru sender coinbase dst l in c <| al_a := aa |> <| al_s := ss |> else c).
+  assert (H2 : alwf j2 ∧ alrel j2 (al_a c1) (al_s c1) ∧ alframe j1 j2 ∧
+               accts c1 = accts c ∧ touched c1 = touched c ∧ refund c1 = refund c ∧ logs c1 = logs c).
+  { subst j2 c1. destruct (r2929 ru).
+    - destruct (prepare_spec ru sender coinbase dst l j1) as (H1 & H2 & H3).
+      destruct (build_al ru sender coinbase dst l) as [aa ss]. simpl in *.
+      split_and!; try done; by destruct c.
+    - split_and!; try done;
+        first [ apply (alwf_frame j); [done|done|by apply wf_alwf]
+              | apply (alrel_frame j); [done|done|by eapply Rc_alrel]
+              | by split_and! ]. }
+  destruct H2 as (HW2 & HR2 & HF2 & C1 & C2 & C3 & C4).
+  destruct HF2 as (B1&B2&B3&B4&B5&B6&B7&B8&B9&B10&B11&B12&B13&B14).
+  set (j' := j2 <| j_tstor := ∅ |>).
+  pose proof (set_tstor_proj j2 j' eq_refl) as P.
+  destruct P as (Q1&Q2&Q3&Q4&Q5&Q6&Q7&Q8&Q9&Q10&Q11&Q12&Q13&Q14&Q15&Q16).
+  split; [done|].
+  match goal with |- Inv _ ?rr => set (r' := rr) end.
+  assert (PR : r_cur r' = c1 <| tstor := ∅ |> ∧ r_stack r' = [] ∧ r_next r' = r_next r ∧ r_sticky r' = r_sticky r ∧
+               r_th r' = th ∧ r_ti r' = ti).
+  { subst r' c1 c. destruct r as [rc rs rn rst rth rti]; simpl in *. by subst rs. }
+  destruct PR as (R1 & R2 & R3 & R4 & R5 & R6).
+  split.
+  - apply (wf_other j j' W); [congruence|congruence|congruence|congruence| | | | |].
+    + rewrite Q5 B5 A5. apply W.
+    + apply (alwf_frame j2); done.
+    + apply (alwf_frame j2); done.
+    + intros t. rewrite Q6 B6 A6. apply W.
+    + intros s y. by rewrite Q8 lookup_empty.
+  - rewrite R4 R1. apply (Rc_other _ j j' c _ R); [congruence|congruence|congruence|congruence| | | | | | | |].
+    + rewrite -C1. by destruct c1.
+    + rewrite -C2. by destruct c1.
+    + rewrite Q8. by destruct c1.
+    + rewrite Q9 B9 A9 (rc_refund _ _ _ R) -C3. by destruct c1.
+    + apply (alrel_frame j2 j') in HR2; [|done|done]. destruct HR2 as [X _]. intros b. rewrite X. by destruct c1.
+    + apply (alrel_frame j2 j') in HR2; [|done|done]. destruct HR2 as [_ Y]. intros b s. rewrite Y. by destruct c1.
+    + intros t. rewrite Q6 B6 A6 (rc_logs _ _ _ R) -C4. by destruct c1.
+    + rewrite Q7 B7 A7 (rc_logsize _ _ _ R) -C4. by destruct c1.
+  - by rewrite R5 Q11 B11 A11.
+  - by rewrite R6 Q12 B12 A12.
+  - by rewrite R3 Q14 B14 A14.
+  - rewrite R2 Q13 B13 A13 Hrv. done.
+Qed.
+
+(* ------------------------------------------------------------------ *)
+(* the refinement, one step at a time and over whole histories *)
+Definition no_sticky (j : jstate) (o : op) : Prop := sticky_j j o = false.
+
+Theorem step_refines j r o :
+  Inv j r → op_ok j o = true → no_sticky j o → step_ok j r o.
+Proof.
+  intros I Hok Hst. destruct (core_op o) eqn:Hc; [by apply step_core|].
+  destruct o; try done.
+  - by apply step_snapshot.
+  - by apply step_revert.
+  - by apply step_finalise.
+  - by apply step_txstart.
+Qed.
+
+Lemma Inv_init db : Inv (init_j db) (init_r db).
+Proof.
+  split; try done; [apply wf_init|].
+  split; try done; simpl.
+  - intros a. rewrite !lookup_fmap. destruct (db !! a) as [d|] eqn:E; simpl; [|done].
+    split_and!; try done; intros k; unfold get_state, committed, db_stor; simpl;
+      rewrite ?lookup_empty E; by case_bool_decide.
+  - intros a. rewrite lookup_empty. split; [by intros [? ?]|set_solver].
+  - intros a k. unfold al_contains_slot. simpl. rewrite lookup_empty. set_solver.
+  - intros th. by rewrite lookup_empty.
+  - intros a. rewrite dom_empty_L. set_solver.
+Qed.
+
+(* guards along a history, evaluated on the implementation model *)
+Fixpoint hist_ok (j : jstate) (ops : list op) : Prop :=
+  match ops with
+  | [] => True
+  | o :: rest => op_ok j o = true ∧ no_sticky j o ∧ hist_ok (step_j j o).1 rest
+  end.
+
+(* return values of a run *)
+Fixpoint outs_j (j : jstate) (ops : list op) : list out :=
+  match ops with [] => [] | o :: rest => (step_j j o).2 :: outs_j (step_j j o).1 rest end.
+Fixpoint outs_r (r : rstate) (ops : list op) : list out :=
+  match ops with [] => [] | o :: rest => (step_r r o).2 :: outs_r (step_r r o).1 rest end.
+
+Theorem run_refines ops : ∀ j r,
+  Inv j r → hist_ok j ops → Inv (run_j j ops) (run_r r ops) ∧ outs_j j ops = outs_r r ops.
+Proof.
+  induction ops as [|o rest IH]; intros j r I H; [done|].
+  destruct H as (Hok & Hst & Hrest). destruct (step_refines j r o I Hok Hst) as [Ho I'].
+  destruct (IH _ _ I' Hrest) as [I'' Hos]. simpl. split; [done|]. by rewrite Ho Hos.
+Qed.
+
+(* every observable getter agrees under the invariant *)
+Lemma Inv_query j r q : Inv j r → query_j j q = query_r r q.
+Proof.
+  intros [W R Hth Hti Hn Hs]. unfold query_r. set (c := r_cur r) in *.
+  assert (Ho : ∀ a, match j_objs j !! a, accts c !! a with
+                    | Some o, Some x => obj_rel j a o x | None, None => True | _, _ => False end)
+    by apply R.
+  destruct q; simpl; try (specialize (Ho a); destruct (j_objs j !! a) as [o|], (accts c !! a) as [x|]; try done;
+    destruct Ho as (D1 & D2 & D3 & D4 & D5); unfold obj_empty; rewrite ?D1 ?D2 ?D3 ?D4 ?D5; try done).
+  - f_equal. apply bool_decide_ext. split; intros [? ?]; eauto.
+  - unfold tget. by rewrite (rc_tstor _ _ _ R).
+  - f_equal. apply bool_decide_ext. apply R.
+  - f_equal. destruct (al_contains_slot j a k) eqn:E.
+    + symmetry. apply bool_decide_eq_true. by apply R.
+    + symmetry. apply bool_decide_eq_false. intros H. apply R in H. congruence.
+  - f_equal. apply R.
+  - f_equal. apply R.
+Qed.
+
+Theorem history_refines db ops :
+  hist_ok (init_j db) ops →
+  (∀ q, query_j (run_j (init_j db) ops) q = query_r (run_r (init_r db) ops) q) ∧
+  outs_j (init_j db) ops = outs_r (init_r db) ops ∧ j_bad (run_j (init_j db) ops) = false.
+Proof.
+  intros H. destruct (run_refines ops _ _ (Inv_init db) H) as [I Ho].
+  split_and!; [intros q; by apply Inv_query|done|apply I].
+Qed.
